@@ -17,7 +17,7 @@ func init() { register("C15", checkC15) }
 const pProcClient = core.Module + "/pkg/remoting/processor/client"
 
 func checkC15(r *core.Run) {
-	r.Explain = "Decided statically: (C15.route) the branch commit / rollback processors are registered under the type code of the request type whose body they assert, hand the request's BranchType to GetResourceManager, and reach only BranchCommit resp. BranchRollback of the manager; (C15.echo) the response literal's Xid and BranchId come from the request, BranchStatus from the manager's result and the reply id from the incoming message's ID; (C15.once) exactly one response is sent per request on the path where the manager returned a status, none in a loop, none on its error path; (C15.truth) ResultCodeSuccess only on the nil-error path of the manager call, and for every registered manager (AT, TCC, XA) a success status constant is returned only with a nil error on a path where the phase-two action is known to have succeeded; (C15.state) the processors write no package-level mutable state (requests cannot influence each other's replies). NOT decided: concurrency of deliveries on one session (schedule)."
+	r.Explain = "Decided statically: (C15.route) the branch commit / rollback processors are registered under the type code of the request type whose body they assert, hand the request's BranchType to GetResourceManager, and reach only BranchCommit resp. BranchRollback of the manager; (C15.echo) the response literal's Xid and BranchId come from the request, BranchStatus from the manager's result and the reply id from the incoming message's ID; (C15.once) exactly one response is sent per request on the path where the manager returned a status, none in a loop, none on its error path; (C15.truth) ResultCodeSuccess only on the nil-error path of the manager call, and for every registered manager (AT, TCC, XA) a success status constant is returned only with a nil error on a path where the phase-two action is known to have succeeded; (C15.state) the processors write no package-level mutable state (requests cannot influence each other's replies). (C15.once, also) a nil return has called the manager and sent the reply; (C15.route, also) GetResourceManager reads its registry under the requested branch type only; NOT decided: concurrency of deliveries on one session (schedule)."
 	r.Trusted = []string{"go/types, go/cfg", "CHA over repository types"}
 	w := r.W
 	type procSpec struct{ reqType, inbound, other, okStatus string }
